@@ -238,6 +238,9 @@ def check(P, prop, tier, seed, t0):
                           "note": "no input violating the property itself was found by the oracle search; "
                                   "the named theorem/correspondence no longer checks"})
         lines.append(f"VIOLATION property={prop} replay={p} no-failing-input-found")
+    if viol and mismatches:
+        write_replay(prop, "model-impl-mismatch-also", {"cases": [r["case"] for r in mismatches[:5]],
+                                                        "details": [summarise_case(r) for r in mismatches[:5]], "seed": seed, "tier": tier})
 
     nontriv = len(distinct)
     samples = [summarise_case(r) for r in results[:: max(1, len(results) // 6)][:6]]
